@@ -113,6 +113,22 @@ OpStep(e) ==
     [] e.op = "len"       -> <<Len_(WLen(w)), w>>
     [] e.op = "size_hint" -> <<Hint(WLen(w), WLen(w)), w>>
 
+\* names are sequences of code points; `&str: Ord` is the lexicographic order of the UTF-8 bytes,
+\* which is the lexicographic order of the code points
+RECURSIVE CpLess(_, _)
+CpLess(a, b) == IF b = <<>> THEN FALSE
+                ELSE IF a = <<>> THEN TRUE
+                ELSE IF a[1] # b[1] THEN a[1] < b[1]
+                ELSE CpLess(Tail(a), Tail(b))
+\* min / max of the remaining items: by discriminant order for iter / range (the lists are ascending),
+\* by name order for names (equal names are the same observation, so the tie rule does not matter)
+ItemMin(src, rest) ==
+  IF src # "names" \/ rest = <<>> THEN ConsMin(rest)
+  ELSE IItem(CHOOSE x \in {rest[i] : i \in 1..Len(rest)} : \A j \in 1..Len(rest) : ~CpLess(D[rest[j]], D[x]))
+ItemMax(src, rest) ==
+  IF src # "names" \/ rest = <<>> THEN ConsMax(rest)
+  ELSE IItem(CHOOSE x \in {rest[i] : i \in 1..Len(rest)} : \A j \in 1..Len(rest) : ~CpLess(D[x], D[rest[j]]))
+
 \* expected observation of a consuming operation
 EndObs(e) ==
   LET rest == Win(base, cur.w.lo, cur.w.hi) IN
@@ -124,8 +140,8 @@ EndObs(e) ==
     [] e.op = "skip"     -> ObsSeq(cur.src, ConsSkip(rest, e.n))
     [] e.op = "take"     -> ObsSeq(cur.src, ConsTake(rest, e.n))
     [] e.op = "rev_skip" -> ObsSeq(cur.src, ConsRevSkip(rest, e.n))
-    [] e.op = "min"      -> Obs(cur.src, ConsMin(rest))
-    [] e.op = "max"      -> Obs(cur.src, ConsMax(rest))
+    [] e.op = "min"      -> Obs(cur.src, ItemMin(cur.src, rest))
+    [] e.op = "max"      -> Obs(cur.src, ItemMax(cur.src, rest))
 
 Report(why, props, e) ==
   PrintT(<<"VIOL", ToJson([line |-> l, case |-> e.case, why |-> why, props |-> props, ev |-> e])>>)
